@@ -129,7 +129,9 @@ def finish(ctx, mod, status, message, wall, repo, verif, known, verbose=False):
     ev = {'property_id': prop, 'tier': ctx.tier, 'seed': ctx.seed, 'level': getattr(ctx, 'level', 'proof'), 'coverage': cov,
           'assumptions': ASSUMED_SEMANTICS + ctx.assumptions, 'wall_s': round(wall, 2),
           'violations': len(violations)}
-    json.dump(ev, open(os.path.join(verif, 'evidence', f'{prop}.json'), 'w'), indent=1, default=str)
+    evdir = os.environ.get('PYVC_EVIDENCE_DIR') or os.path.join(verif, 'evidence')   # development runs on scratch trees
+    os.makedirs(evdir, exist_ok=True)
+    json.dump(ev, open(os.path.join(evdir, f'{prop}.json'), 'w'), indent=1, default=str)
 
     for (k, o) in known_hits:
         print(f'KNOWN-FINDING: property={prop} {k.get("what", o.id)}')
